@@ -21,6 +21,7 @@ def install(reg):
     install_value_specs(reg)
     install_magnet_specs(reg)
     install_merkle_specs(reg)
+    install_recheck_specs(reg)
     from pyvc import fsmodel
     fsmodel.install(reg)
     fsmodel.install_more(reg)
@@ -372,3 +373,86 @@ def install_merkle_specs(reg):
     def s_pairhash(p, blocks):
         return VBox(PV.PList(pairhash_seq(p, _seq(p, blocks))))
     SF["pairhash"] = s_pairhash
+
+
+def install_recheck_specs(reg):
+    SF = reg.spec_funcs
+
+    def _seq(p, v):
+        if isinstance(v, VBox):
+            return PV.items(v.t)
+        h = p.deref(v)
+        if isinstance(h, HList):
+            return p.list_seq(h)
+        raise Unsupported("list expected")
+
+    def _tsize(X, i):
+        return PV.ival(PV.titems(X[i])[3])
+
+    def _tmatch(X, i):
+        return PV.titems(X[i])[0] == PV.titems(X[i])[1]
+
+    def s_tuple_size(p, sigma, i):
+        return VInt(_tsize(_seq(p, sigma), p.as_int(i)))
+    SF["tuple_size"] = s_tuple_size
+
+    def s_tuple_matches(p, sigma, i):
+        return VBool(_tmatch(_seq(p, sigma), p.as_int(i)))
+    SF["tuple_matches"] = s_tuple_matches
+
+    def _sums(p, X, i, which):
+        f = p.engine.uf(which, PVSEQ, I, I)
+        t = f(X, i)
+        key = (which, X.get_id(), z3.simplify(i).sexpr())
+        if key not in p.ghost:
+            p.ghost[key] = True
+            # ground instances of the recursive definition at i (both directions) and the base case
+            add = _tsize(X, i) if which == "size_sum" else z3.If(_tmatch(X, i), _tsize(X, i), 0)
+            p.assume(f(X, z3.IntVal(0)) == 0)
+            p.assume(z3.Implies(z3.And(i >= 0, i < z3.Length(X)), f(X, i + 1) == t + add))
+            prev = i - 1
+            addp = _tsize(X, prev) if which == "size_sum" else z3.If(_tmatch(X, prev), _tsize(X, prev), 0)
+            p.assume(z3.Implies(z3.And(prev >= 0, prev < z3.Length(X)), t == f(X, prev) + addp))
+        return t
+
+    def s_size_sum(p, sigma, i):
+        return VInt(_sums(p, _seq(p, sigma), p.as_int(i), "size_sum"))
+    SF["size_sum"] = s_size_sum
+
+    def s_match_sum(p, sigma, i):
+        return VInt(_sums(p, _seq(p, sigma), p.as_int(i), "match_sum"))
+    SF["match_sum"] = s_match_sum
+
+    def s_tuples_wellformed(p, sigma, j):
+        """every element is a 4-tuple (chunk, piece, path, size) with size >= 0 -- instantiated at the loop index by the
+        element rule below and at the ghost index j here"""
+        X = _seq(p, sigma)
+        jt = p.as_int(j)
+        h = p.deref(sigma)
+        if isinstance(h, HList):
+            h.tag["elem_fact"] = lambda i, X=X: z3.And(PV.is_PTuple(X[i]), z3.Length(PV.titems(X[i])) == 4,
+                                                      PV.is_PInt(PV.titems(X[i])[3]), PV.ival(PV.titems(X[i])[3]) >= 0)
+        return VBool(z3.Implies(z3.And(jt >= 0, jt < z3.Length(X)), h.tag["elem_fact"](jt)))
+    SF["tuples_wellformed"] = s_tuples_wellformed
+
+    def s_hashed(p):
+        t = p.ghost.get("hashed_sha1")
+        if t is None:
+            return VBytes(p.fresh("nothing_hashed", BYTES))
+        return VBytes(t)
+    SF["hashed"] = s_hashed
+
+    def s_sha1(p, b):
+        t = p.bytes_term(b)
+        return VBytes(p.engine.uf("sha1", BYTES, BYTES)(t))
+    SF["sha1"] = s_sha1
+
+    def s_sha256(p, b):
+        t = p.bytes_term(b)
+        d = p.engine.uf("sha256", BYTES, BYTES)(t)
+        return VBytes(d)
+    SF["sha256"] = s_sha256
+
+    def s_zeros(p, n):
+        return VBytes(p.engine.zeros(p, p.as_int(n)))
+    SF["zeros"] = s_zeros
